@@ -1,63 +1,49 @@
 (* C06 — destroying or failing to create an environment leaves nothing behind.
    Property theorems only; each closed by [exact] of a lemma from proofs/OwnThm_proofs.v.
    Model: model/Teardown.v (TeardownEnvironment, the failure tail of CreateEnvironment,
-   DestroyEnvironment / doTeardownAndCleanup, as coded) over model/Ownership.v.
-   [reachable s]: any well-formed history (model/OwnSpec.v), so: destroy requested in every state,
-   with every combination of force / allow-in-running / keep-tasks, after any creations, transitions,
-   failed transitions and task deaths; creation failing at any stage (oracle field c_fail, launch and
-   CONFIGURE outcomes per role); DESTROY / after_DESTROY hooks (calls and tasks) at any weights. *)
+   DestroyEnvironment / doTeardownAndCleanup, as coded AFTER the repairs of C06-a and C06-b) over
+   model/Ownership.v.  [reachable s]: any well-formed history (model/OwnSpec.v), so: destroy requested
+   in every state, with every combination of force / allow-in-running / keep-tasks, after any creations,
+   transitions, failed transitions, task deaths and executor / agent failures (tasks that are not locked
+   any more but still have their parent role); creation failing at any stage (oracle field c_fail,
+   launch and CONFIGURE outcomes per role); DESTROY / after_DESTROY hooks (calls and tasks) at any
+   weights.  "Owned" in the conclusions is the parent link (GetEnvironmentId), not the locked flag. *)
 From Verif Require Import Common Ownership Teardown OwnSpec OwnInv_proofs OwnThm_proofs.
 Open Scope N_scope.
 
-(* --- the full statement for destroy is FALSE for the unchanged code: TeardownEnvironment builds one
-       release message per hook weight and sends only the last one, so DESTROY hook tasks of every
-       other weight (and dead ones of the last) keep the deleted environment as their owner; locked,
-       they are skipped by KillTasks and by every later Cleanup (finding C06-a; witness replayed on
-       the implementation as corpus case destroy-hooks-two-weights). *)
-Theorem C06_multiweight_destroy_hooks_refuted : ~ destroy_leaves_nothing.
-Proof. exact destroy_leaves_nothing_refuted. Qed.
-Print Assumptions C06_multiweight_destroy_hooks_refuted.
+(* --- destroy, full statement: a destroy that returned success leaves the environment unlisted and no
+       roster task with this environment as its parent — whatever the DESTROY hooks and their weights,
+       dead or failed-executor tasks included. *)
+Theorem C06_destroy_leaves_nothing : destroy_leaves_nothing.
+Proof. exact destroy_leaves_nothing_holds. Qed.
+Print Assumptions C06_destroy_leaves_nothing.
 
-(* --- what holds instead: under the exact extra hypothesis [hooks_releasable] (DESTROY hook tasks at
-       the last weight only, their roles still ACTIVE — in particular: no hook tasks at all) a destroy
-       that returned success leaves the environment unlisted (so its detectors are free: the listing
-       is the old one minus this entry), no task owned by it, no pending call uncancelled, and —
-       unless the caller asked to keep tasks — every running task it owned has been sent KILL. *)
-Theorem C06_destroy_nothing_behind_partial : forall s e force allow keep tfail s' u x,
-  reachable s -> find_env e (s_envs s) = Some x -> hooks_releasable x (s_roster s) ->
+(* --- the same with everything the property lists: the listing is the old one minus this entry (so
+       its detectors are free again), no pending call is left uncancelled and, unless the caller asked
+       to keep tasks, every task it still owned has been sent KILL. *)
+Theorem C06_destroy_nothing_behind : forall s e force allow keep tfail s' u x,
+  reachable s -> find_env e (s_envs s) = Some x ->
   step s (ODestroy e force allow keep tfail) = (s', u) -> o_rc u = 0 ->
   nothing_left e s' /\ s_envs s' = remove_env e (s_envs s) /\ o_pend u = 0 /\
-  (keep = false -> forall t, In t (s_roster s) -> t_owner t = Some e -> t_active t = true ->
-                   In (t_id t) (o_kills u)).
+  (keep = false -> forall t, In t (s_roster s) -> t_owner t = Some e -> In (t_id t) (o_kills u)).
 Proof. exact destroy_nothing_behind. Qed.
-Print Assumptions C06_destroy_nothing_behind_partial.
+Print Assumptions C06_destroy_nothing_behind.
 
-(* --- the full statement for a failed creation is FALSE for the unchanged code: doKillTasks drops
-       tasks whose status is not yet ACTIVE (still staging) from the roster without a KILL; they keep
-       running, unknown to the core (finding C06-b; corpus case staging-dropped). *)
-Theorem C06_failed_creation_staging_refuted : ~ failed_creation_leaves_nothing.
-Proof. exact failed_creation_leaves_nothing_refuted. Qed.
-Print Assumptions C06_failed_creation_staging_refuted.
+(* --- failed creation, full statement, for a creation nothing overlaps and for the second half of an
+       overlapped one: a creation that returned an error — at whatever stage: template missing / in
+       error, host without detector, detector busy, undeployable role, launch failure, deployment
+       timeout, CONFIGURE refused by a critical task — leaves the environment unlisted, no task with it
+       as parent, and every task launched for it (running, still staging or dead) sent KILL. *)
+Theorem C06_failed_creation_leaves_nothing : failed_creation_leaves_nothing.
+Proof. exact failed_creation_leaves_nothing_holds. Qed.
+Print Assumptions C06_failed_creation_leaves_nothing.
 
-(* --- what holds instead, for a creation nothing overlaps and for the second half of an overlapped
-       one: if every launched task either reports running or has failed (none still staging) and the
-       workflow has no DESTROY hook tasks, a creation that returned an error — at whatever stage:
-       template missing / in error, host without detector, detector busy, undeployable role, launch
-       failure, deployment timeout, CONFIGURE refused by a critical task — leaves the environment
-       unlisted, no task owned by it, and every launched task that had not already terminated KILLed. *)
-Theorem C06_failed_creation_partial : forall s e c s' u,
-  reachable s -> wf_op s (OCreate e c) = true -> no_hook_tasks c = true -> none_staging c = true ->
-  step s (OCreate e c) = (s', u) -> o_rc u = 1 ->
-  nothing_left e s' /\ launched_killed e c u.
-Proof. exact create_nothing_behind. Qed.
-Print Assumptions C06_failed_creation_partial.
-
-Theorem C06_failed_overlapped_creation_partial : forall s e c s' u,
-  reachable s -> assocN e (s_snaps s) <> None -> no_hook_tasks c = true -> none_staging c = true ->
+Theorem C06_failed_overlapped_creation_leaves_nothing : forall s e c s' u,
+  reachable s -> assocN e (s_snaps s) <> None ->
   step s (OFinish e c) = (s', u) -> o_rc u = 1 ->
   nothing_left e s' /\ launched_killed e c u.
 Proof. exact finish_nothing_behind. Qed.
-Print Assumptions C06_failed_overlapped_creation_partial.
+Print Assumptions C06_failed_overlapped_creation_leaves_nothing.
 
 (* --- "DESTROY hooks run only after the other tasks were released": in every consistent state (every
        reachable state is one — next theorem — and so is every intermediate state inside a request,
@@ -81,17 +67,37 @@ Theorem C06_error_not_success : forall s e force allow keep tfail s' u,
 Proof. exact destroy_rc0. Qed.
 Print Assumptions C06_error_not_success.
 
-(* --- non-vacuity: a RUNNING environment with DESTROY hooks (two calls, two tasks at the one weight 3)
-       meets the hypotheses of the partial theorem, and its destroy (allow-in-running) succeeds. *)
+(* --- regression examples: the witnesses that refuted the full statements before the repairs
+       (C06-a: DESTROY hook tasks at two weights; C06-b: a task still staging when the creation fails)
+       and the executor-failure history of seeded change C06-1 now end with nothing left. *)
+Example C06_multiweight_regression :
+  let '(s', u) := step (run st0 mw_ops) (ODestroy 0 false false false false) in
+  o_rc u = 0 /\ s_roster s' = [] /\ length (o_kills u) = 3%nat.
+Proof. vm_compute. repeat split; reflexivity. Qed.
+
+Example C06_staging_regression :
+  let '(s', u) := step st0 (OCreate 0 stg_spec) in
+  o_rc u = 1 /\ mem_tid (0, 2) (o_kills u) = true /\ s_roster s' = [].
+Proof. vm_compute. repeat split; reflexivity. Qed.
+
+Example C06_failed_executor_regression :
+  let s := run st0 [OCreate 0 xf_spec; OFail [(0, 1)]] in
+  existsb (fun t => owner_is 0 t && negb (is_locked t)) (s_roster s) = true /\
+  let '(s', u) := step s (ODestroy 0 true false true false) in
+  o_rc u = 0 /\ owns_some 0 (s_roster s') = false /\ length (s_roster s') = 2%nat.
+Proof. vm_compute. repeat split; reflexivity. Qed.
+
+(* --- non-vacuity: a RUNNING environment with DESTROY hooks at two weights (calls and tasks), a pending
+       call and a task whose executor failed is reachable, and its destroy (allow-in-running) succeeds. *)
 Example C06_nonvacuous :
   let c := mkSpec [0; 1] 0 [mkRole RPlain true 0 false; mkRole (RHookTask false 3%Z) false 0 false;
-                            mkRole (RHookCall false 3%Z) false 0 false; mkRole (RHookTask true 3%Z) true 0 false;
-                            mkRole RPend false 0 false] in
-  let ops := [OCreate 0 c; OControl 0 2 false] in
+                            mkRole (RHookCall false 3%Z) false 0 false; mkRole (RHookTask true (-2)%Z) true 0 false;
+                            mkRole RPend false 0 false; mkRole RPlain false 0 false] in
+  let ops := [OCreate 0 c; OControl 0 2 false; OFail [(0, 5)]] in
   let s := run st0 ops in
   valid_hist st0 ops = true /\
-  (exists x, find_env 0 (s_envs s) = Some x /\ e_state x = ES_RUNNING /\ length (merged x) = 1%nat /\
-             forallb (active_in (s_roster s)) (destroy_hook_tids x) = true /\ e_pend x = 1) /\
+  (exists x, find_env 0 (s_envs s) = Some x /\ e_state x = ES_RUNNING /\ length (merged x) = 2%nat /\
+             e_pend x = 1) /\
   o_rc (snd (step s (ODestroy 0 false true false false))) = 0 /\
-  length (o_kills (snd (step s (ODestroy 0 false true false false)))) = 3%nat.
+  length (o_kills (snd (step s (ODestroy 0 false true false false)))) = 4%nat.
 Proof. vm_compute. split; [reflexivity|]. split; [|split; reflexivity]. eexists. repeat split; reflexivity. Qed.
